@@ -94,7 +94,7 @@ Definition f_tocos (a : float) : float :=
   f_cos (PrimFloat.mul a (PrimFloat.div f_pi 180%float)).
 
 Definition cos_tail (l : list float) : list float :=
-  firstn 3 l ++ map f_tocos (firstn 9 (skipn 3 l)).
+  firstn 3 l ++ map f_tocos (firstn 9 (skipn 3 l)) ++ skipn 12 l.
 
 Definition f_identity9 : list float := [1;0;0;0;1;0;0;0;1]%float.
 
@@ -102,15 +102,15 @@ Definition f_norm (l : list float) : tpval :=
   match List.length l with
   | 0%nat => EVals ([0;0;0]%float ++ f_identity9)
   | 3%nat => EVals (l ++ f_identity9)
+  | 2%nat => EVals (l ++ f_identity9)   (* transf[:3] ++ identity: 11 numbers *)
   | 12%nat => EVals l           (* a complete orthonormal matrix is kept up to 1e-9 *)
+  | 13%nat => EVals (firstn 12 l)
   | _ => EOpaque
   end.
 
 Definition eval_tp (p : trparams float) : tpval :=
   match p with
   | TPVals l => EVals l
-  | TPStrs l => EStrs l
-  | TPCos l => EVals (cos_tail l)
   | TPNorm l => f_norm l
   | TPNormCos l => f_norm (cos_tail l)
   end.
@@ -161,7 +161,7 @@ Definition cell_eqb (c : cell (T:=float)) (o : ocell) : bool :=
 Definition err_eqb (a b : err) : bool :=
   match a, b with
   | EIndex, EIndex | EValue, EValue | EType, EType | EZeroDiv, EZeroDiv | EKey, EKey
-  | ECell, ECell | EMissingLattice, EMissingLattice | EAssert, EAssert | ELoop, ELoop => true
+  | ECell, ECell | EMissingLattice, EMissingLattice | EAssert, EAssert | ETransf, ETransf | ELoop, ELoop => true
   | _, _ => false
   end.
 
